@@ -233,14 +233,28 @@ def check_init(ctx):
     en = paths.Enumerator()
     loops = [s for s in f.body if isinstance(s, ast.For)]
     problems = []
-    if len(loops) != 1 or k(src(loops[0].iter)) not in ('self.params2index', 'self.params2index.keys()'):
+    it_ = k(src(loops[0].iter)) if len(loops) == 1 else None
+    if it_ not in ('self.params2index', 'self.params2index.keys()', 'self.params2index.items()', 'self.params2index.values()'):
         problems.append('no loop over all parameters')
     else:
         lp = loops[0]
         ifs = [s for s in lp.body if isinstance(s, ast.If)]
         flag = None
         defs = util.single_defs(f)
-        if len(ifs) == 1 and k(src(util.inline(ifs[0].test, defs))) in ('np.isnan(self.params_values[self.params2index[p]])',):
+        # the loop's view of one parameter: its name and / or its index
+        key_var = idx_var = None
+        if it_.endswith('.items()') and isinstance(lp.target, ast.Tuple) and len(lp.target.elts) == 2:
+            key_var, idx_var = src(lp.target.elts[0]), src(lp.target.elts[1])
+        elif it_.endswith('.values()'):
+            idx_var = src(lp.target)
+        else:
+            key_var = src(lp.target)
+        accepted = set()
+        if key_var:
+            accepted.add('np.isnan(self.params_values[self.params2index[%s]])' % key_var)
+        if idx_var:
+            accepted.add('np.isnan(self.params_values[%s])' % idx_var)
+        if len(ifs) == 1 and k(src(util.inline(ifs[0].test, defs))) in accepted:
             for s in ifs[0].body:
                 if isinstance(s, ast.Assign) and util.is_const(s.value, True):
                     flag = src(s.targets[0])
@@ -250,8 +264,9 @@ def check_init(ctx):
             tail = [s for s in f.body[f.body.index(lp) + 1:] if isinstance(s, ast.If)]
             if not tail or src(tail[0].test) != flag or not any(isinstance(x, ast.Raise) for x in tail[0].body):
                 problems.append('the flag does not lead to a raise')
-        if k(src(lp.target)) != 'p':
-            problems.append('the loop does not run over the parameter names')
+        if any(isinstance(x, (ast.Assign, ast.AugAssign)) and any(src(t_) in (key_var, idx_var) for t_ in (x.targets if isinstance(x, ast.Assign) else [x.target]))
+               for x in ast.walk(lp)):
+            problems.append('the loop variable is rewritten inside the loop')
         if any(isinstance(x, (ast.Break, ast.Continue, ast.Return)) for x in ast.walk(lp)):
             problems.append('the scan can stop early without raising')
     ctx.ob('R3.5-initialisation-check', 'check_parameters', not problems, ctx.loc('types', f), 'check_parameters raises whenever some parameter value is NaN', '; '.join(problems))
